@@ -489,7 +489,7 @@ def main(chk: Check, replay: dict | None = None) -> int:
 
     # ---------------- render
     specs = [c["input"]["spec"] for c in corpus if c["input"].get("kind") == "render"]
-    n_docs = 24 if chk.thorough else 10
+    n_docs = 60 if chk.thorough else 10
     tries = 0
     while len(specs) < len([c for c in corpus if c["input"].get("kind") == "render"]) + n_docs and tries < 200:
         tries += 1
@@ -551,3 +551,23 @@ def main(chk: Check, replay: dict | None = None) -> int:
              "JSON of (input, abstraction); every case is non-trivial except the yaml key table",
         explanation="PARTIAL: key-retyping loss, path-order and property-order invariance are Coq theorems on Model/Render.v; "
                     "whole-generator invariance under re-rendering/reordering is this run's differential oracle only")
+
+
+# mutation self-tests (by hand):  python harness/prop_C19.py mutant <name>;  VERIF_REPO_ROOT=build/mut/<name> ./check C19
+MUTATIONS = {
+    "fields_follow_property_order": ("visit/model/dataclass_generator.py",
+                                     "sorted_props = sorted(schema.properties.items(), key=lambda item: (item[0] not in schema.required, item[0]))",
+                                     "sorted_props = sorted(schema.properties.items(), key=lambda item: (item[0] not in schema.required))"),
+    "yaml_loader_reorders_paths": ("core/spec_fetcher.py", "            data = yaml.safe_load(content)\n",
+                                   "            data = yaml.safe_load(content)\n            if isinstance(data, dict) and isinstance(data.get('paths'), dict):\n                data['paths'] = dict(sorted(data['paths'].items()))\n"),
+    "status_code_keyed_on_type": ("core/loader/responses/parser.py", '    if not isinstance(code, str):\n        raise TypeError("code must be a string")',
+                                  '    if not isinstance(code, str):\n        code = f"{code:03d}x"'),
+    "schemas_emitted_by_position": ("core/loader/operations/parser.py", "                    tags=list(node_op.get(\"tags\", [])),",
+                                    "                    tags=list(node_op.get(\"tags\", [])) if len(ops) % 2 == 0 else [],"),
+}
+
+if __name__ == "__main__":
+    import sys as _sys
+    if len(_sys.argv) > 2 and _sys.argv[1] == "mutant":
+        from prop_C09 import make_mutant
+        print(make_mutant(_sys.argv[2], MUTATIONS))
